@@ -359,6 +359,88 @@ def fresh_modules(import_list, paths, callees=()):
     r = _json.loads(p.stdout)
     return r["modules"], r["signatures"]
 
+
+def _mentions_available(test):
+    for n in ast.walk(test):
+        if (isinstance(n, ast.Name) and n.id == "__available__") or (isinstance(n, ast.Attribute) and n.attr == "__available__"):
+            return True
+    return False
+
+
+def _bound_names(stmts):
+    out = set()
+    for st in stmts:
+        for n in ast.walk(st):
+            if isinstance(n, (ast.FunctionDef, ast.ClassDef, ast.AsyncFunctionDef)):
+                out.add(n.name)
+            elif isinstance(n, ast.Name) and isinstance(n.ctx, ast.Store):
+                out.add(n.id)
+            elif isinstance(n, (ast.Import, ast.ImportFrom)):
+                for a in n.names:
+                    if a.name != "*":
+                        out.add((a.asname or a.name).split(".")[0])
+    return out
+
+
+def optional_only_names(tree):
+    """module-level names that are bound ONLY inside an `if …__available__:` block (they do not exist when the optional
+    dependency is absent)"""
+    inside, outside = set(), set()
+    for st in tree.body:
+        if isinstance(st, ast.If) and _mentions_available(st.test):
+            inside |= _bound_names(st.body)
+            outside |= _bound_names(st.orelse)
+        elif isinstance(st, (ast.FunctionDef, ast.ClassDef, ast.AsyncFunctionDef)):
+            outside.add(st.name)
+        else:
+            outside |= _bound_names([st])
+    return inside - outside
+
+
+def optional_leaks(rel, tree, only_here, only_by_module, alias_of_internal):
+    """uses, in code that runs without the optional dependency, of names that exist only with it: (name, function, line).
+    A use is fine inside `if …__available__:` or after a leading `if not …__available__: raise` of the same function."""
+    leaks = []
+
+    def visit_func(fn):
+        guarded_from = None
+        for i, st in enumerate(fn.body):
+            if isinstance(st, ast.If) and _mentions_available(st.test) and any(isinstance(x, ast.Raise) for x in st.body):
+                guarded_from = st.lineno
+                break
+        local = {a.arg for a in fn.args.args + fn.args.kwonlyargs} | _bound_names(fn.body)
+
+        def walk(node, guarded):
+            if isinstance(node, ast.If) and _mentions_available(node.test):
+                for x in node.body:
+                    walk(x, True)
+                for x in node.orelse:
+                    walk(x, guarded)
+                return
+            if isinstance(node, ast.Name) and isinstance(node.ctx, ast.Load) and not guarded:
+                if node.id in only_here and node.id not in local and not (guarded_from and node.lineno > guarded_from):
+                    leaks.append((node.id, fn.name, node.lineno))
+            if isinstance(node, ast.Attribute) and isinstance(node.value, ast.Name) and not guarded:
+                m = alias_of_internal.get(node.value.id)
+                if m and node.attr in only_by_module.get(m, ()) and not (guarded_from and node.lineno > guarded_from):
+                    leaks.append((node.value.id + "." + node.attr, fn.name, node.lineno))
+            for c in ast.iter_child_nodes(node):
+                walk(c, guarded)
+        for st in fn.body:
+            walk(st, False)
+
+    def top(stmts, in_optional):
+        for st in stmts:
+            if isinstance(st, ast.If) and _mentions_available(st.test):
+                top(st.orelse, in_optional)
+                continue                      # definitions inside the optional block only exist with the dependency
+            if isinstance(st, (ast.FunctionDef, ast.AsyncFunctionDef)):
+                visit_func(st)
+            elif isinstance(st, ast.ClassDef):
+                top(st.body, in_optional)
+    top(tree.body, False)
+    return leaks
+
 def lean_str(s):
     return '"' + s.replace("\\", "\\\\").replace('"', '\\"') + '"'
 
@@ -389,6 +471,28 @@ def generate(repo):
         v = FileRefs(rel)
         v.visit(tree)
         visitors.append((rel, v))
+    # names that exist only when an optional dependency is installed must not be used by code that runs without it
+    trees = {}
+    for path in files:
+        rel = os.path.relpath(path, repo)
+        trees[rel] = ast.parse(open(path).read(), filename=rel)
+    only = {rel: optional_only_names(t) for rel, t in trees.items()}
+    mod_of = {rel[:-3].replace(os.sep, ".").replace(".__init__", ""): rel for rel in trees}
+    opt_leaks = []
+    for rel, t in trees.items():
+        alias_internal = {}
+        for n in ast.walk(t):
+            if isinstance(n, ast.Import):
+                for a in n.names:
+                    if a.name in mod_of and a.asname:
+                        alias_internal[a.asname] = mod_of[a.name]
+            elif isinstance(n, ast.ImportFrom) and n.module:
+                for a in n.names:
+                    full = n.module + "." + a.name
+                    if full in mod_of:
+                        alias_internal[a.asname or a.name] = mod_of[full]
+        opt_leaks += [(rel,) + l for l in optional_leaks(rel, t, only[rel], only, alias_internal)]
+    opt_leaks = sorted(set(opt_leaks))
     # what a fresh interpreter can reach by attribute access after the package's own (unguarded or guarded) imports
     ext_imports, cand = set(), set()
     for rel, v in visitors:
@@ -485,6 +589,12 @@ def generate(repo):
     out.append("def kwrefs : List KwRef := [\n" + ",\n".join(
         "  ⟨%s, %s, %s, %d, %s⟩" % (lean_str(c), lean_str(k), lean_str(f), l, "true" if g else "false")
         for c, k, f, l, g in kwrefs) + "]\n")
+    out.append("/-- uses, in code that runs WITHOUT an optional dependency, of module-level names that are bound only inside an\n"
+               "`if …__available__:` block (file, name, function, line); must be empty -/\n")
+    out.append("def optionalLeaks : List (String × String × String × Nat) := [%s]\n" % ", ".join(
+        "(%s, %s, %s, %d)" % (lean_str(f), lean_str(n), lean_str(fn), l) for f, n, fn, l in opt_leaks))
+    out.append("/-- how many module-level names are bound only under an optional-dependency guard (non-vacuity) -/\n")
+    out.append("def optionalOnlyNames : Nat := %d\n" % sum(len(v) for v in only.values()))
     out.append("/-- lower bound of python_requires in setup.py -/\n")
     out.append("def declaredPython : Nat × Nat := (%d, %d)\n" % pyver)
     out.append("/-- per source file: does it parse with the grammar of the declared minimum Python (message if not) -/\n")
